@@ -2,13 +2,13 @@
 from verif import *
 from props.routers import *
 
-THEOREMS = []
+THEOREMS = ['c09_pubsub_no_sleep_on_undone_work']
 
 
 def run(tier, seed, replay=None):
     check = Check('C09', tier, seed)
     if THEOREMS:
-        prove(check, '', THEOREMS)
+        prove(check, 'theories/Props_C09.v', THEOREMS)
     engines = ['ps', 'rr']
     if replay:
         head = open(replay).read(4000)
